@@ -98,17 +98,21 @@ func cloneValue(src interface{}, dst interface{}) {
 		srcType := srcVal.Type()
 		// we deep copy structure
 		// warning: unexported pointers are copied here
-		dstVal.Elem().Set(srcVal)
+		// dst may be an interface holding the structure, the fields of which
+		// cannot be set, so we clone into a temporary structure
+		tmp := reflect.New(srcType).Elem()
+		tmp.Set(srcVal)
 		for i := 0; i < srcVal.NumField(); i++ {
 			structField := srcType.Field(i)
 			srcField := srcVal.Field(i)
-			dstField := dstVal.Elem().Field(i)
+			dstField := tmp.Field(i)
 			if structField.IsExported() {
 				// we set to zero exported fields in order to deep copy them
 				dstField.Set(reflect.Zero(srcField.Type()))
 				cloneValue(srcField.Interface(), dstField.Addr().Interface())
 			}
 		}
+		dstVal.Elem().Set(tmp)
 
 	default:
 		dst := dstVal.Elem()
